@@ -110,6 +110,11 @@ def r1(chk, ctx):
         # the regex result is negated
         par = m.parent(c)
         chk.ob("C17.R1", "%s.valid_name: a regex hit rejects" % name, isinstance(par, ast.UnaryOp) and isinstance(par.op, ast.Not), "", key="%s.valid_name | regex result not negated" % name, where=f.where(), message="")
+        documented = set(" <>{}[]?*\"#%\\^|~`$&,;:/")
+        missing = sorted(documented - cls)
+        chk.ob("C17.R1", "%s.valid_name forbids every character the API documents as forbidden" % name, not missing, "missing: %s" % missing,
+               key="%s.valid_name | documented forbidden characters allowed in names: %s" % (name, missing), where=f.where(),
+               message="names are accepted iff 1..80 characters without the forbidden characters (whitespace < > { } [ ] ? * \" # % \\ ^ | ~ ` $ & , ; : /)")
         for s in sorted(seps):
             chk.ob("C17.R1", "%s.valid_name forbids separator %r" % (name, s), s in cls, "", key="%s.valid_name | separator %s is allowed in names" % (name, s), where=f.where(),
                    message="parse_arn / rpartition split on this character")
@@ -248,7 +253,30 @@ def r4(chk, ctx):
     chk.ob("C17.R4", "parse_arn separates the resource type once, '/' before ':'", ok, "", key="parse_arn | resource type split", where=pa.where(), message="")
 
 
+def r5(chk, ctx):
+    """the machine <-> execution relation is never derived by string prefix matching"""
+    n = 0
+    for mn in ("rest_api", "rest_api_asyncio"):
+        m = ctx.mod(mn)
+        for q, f in m.funcs.items():
+            if not f.name.startswith("aws_api_"):
+                continue
+            for c in ast.walk(f.node):
+                if isinstance(c, ast.Call) and isinstance(c.func, ast.Attribute) and c.func.attr in ("startswith", "endswith", "find", "index") and any("arn" in norm(a).lower() for a in c.args):
+                    chk.ob("C17.R5", "%s.%s relates ARNs by %s" % (mn, f.name, c.func.attr), False, norm(c),
+                           key="%s.%s | ARN relation decided by string %s (`%s`)" % (mn, f.name, c.func.attr, short(c, 50)), where=m.line(c),
+                           message="one machine name can be a prefix of another (orders / orders-v2): the relation must be read from the record's stateMachineArn or derived by parse_arn")
+            if f.name == "aws_api_ListExecutions":
+                n += 1
+                comps = [x for x in body_nodes(f) if isinstance(x, ast.ListComp)]
+                conds = [norm(v) for x in comps for g in x.generators for c in g.ifs for v in (c.values if isinstance(c, ast.BoolOp) else [c])]
+                ok = "v['stateMachineArn'] == state_machine_arn" in conds
+                chk.ob("C17.R5", "%s ListExecutions selects by the record's stateMachineArn" % mn, ok, str(conds), key="%s.aws_api_ListExecutions | selection %s" % (mn, conds), where=f.where(), message="")
+    chk.floor("C17.R5", n, 2, "ListExecutions handlers")
+
+
 def run(chk, ctx):
+    r5(chk, ctx)
     r1(chk, ctx)
     r2_r3(chk, ctx)
     r4(chk, ctx)
